@@ -344,8 +344,13 @@ func genLayout(r *rand.Rand) (stores int, splits []string) {
 	return
 }
 
+// No transport-level duplicate: on the real stack (gRPC over one TCP stream) a request is never executed twice
+// unless the client re-sends it - and then the client knows. What does happen, a first copy that executes after
+// its retry, is covered by the slow-drop and stall fates (the caller sees its time-out, re-sends, the stalled
+// copy arrives later). A duplicate the sender does not know about made a 1PC prewrite commit behind the back of
+// a client that had just been told "key is locked" - a history no deployment can produce.
 var benignFaults = []simkit.Fate{
-	simkit.DropReq, simkit.DropResp, simkit.DropReqSlow, simkit.DropRespSlow, simkit.Dup, simkit.Delay,
+	simkit.DropReq, simkit.DropResp, simkit.DropReqSlow, simkit.DropRespSlow, simkit.Delay,
 	simkit.RENotLeader, simkit.RENotLeaderHint, simkit.REEpochNotMatch, simkit.REServerIsBusy, simkit.REStaleCommand,
 	simkit.RERegionNotFound, simkit.TopoSplit, simkit.TopoLeader, simkit.TopoSplitAfter,
 }
